@@ -156,6 +156,10 @@ def add_maybe_exponent_stripped(x, y):
 
     # perform branchless for jit etc.
     e = max(xe, ye)
+    if e == float("-inf"):
+        # both terms are exactly zero, rescaling by 10 ** (-inf - -inf)
+        # would turn the (still zero) sum into nan
+        return (xm + ym, e)
     m = xm * 10 ** (xe - e) + ym * 10 ** (ye - e)
 
     return (m, e)
